@@ -283,6 +283,27 @@ def check(prop, tier, seed):
         rc = 0
         violations = 0
         replays = []
+        # a broken correspondence with no failing input so far: widen the search around the
+        # panels that drift (DESIGN §5.1 step 5)
+        widened = 0
+        if not unlisted and drifts and spec.get("widen"):
+            dp = set()
+            for f_, sid_, _ in drifts:
+                mp_ = re.search(r"panel=(\S+)", all_lines.get((f_, sid_), ""))
+                if mp_:
+                    dp.add(mp_.group(1))
+            wl = getattr(scenarios, spec["widen"])(dp, tier, seed)
+            widened = len(wl)
+            for l in wl:
+                all_lines[("v3", re.match(r"id=(\S+)", l).group(1))] = l
+            for o in run_shards(wl, "v3", spec["props"], spec.get("view", "raw"), workdir):
+                if o.startswith("V ") and f" {prop} FAIL " in o:
+                    parts = o.split(" ", 4)
+                    site, reason = field(parts[4], "site"), field(parts[4], "reason")
+                    listed = any((any(fnmatch.fnmatchcase(site, s_) for s_ in (k.get("sites") or [k["site"]])) and reason in (k.get("reasons") or [k["reason"]])
+                                  and (("ctx" not in k) or field(parts[4], "ctx") in k["ctx"])) for k in known)
+                    if not listed:
+                        unlisted.append(("v3", parts[1], parts[4]))
         if unlisted:
             feat, sid, detail = unlisted[0]
             # shrink a pure batch to the one operation the oracle names
@@ -327,7 +348,7 @@ def check(prop, tier, seed):
         write_evidence(prop, tier, seed, t0, spec, info, thms, count, nlines, drifts, fails, violations,
                        [all_lines[k] for k in list(all_lines)[:3]], {"oracle_ok": oks, "oracle_evaluations_impl": obs_count,
                         "oracle_failures_impl": len(fails), "oracle_failures_model": len(model_fails), "known_findings_seen": sorted(known_hit),
-                        "bad_axioms": bad_ax, "forbidden": forb, "scenario_stats": gen.get("stats", {}), "replays": replays})
+                        "bad_axioms": bad_ax, "forbidden": forb, "widened_search_scenarios": widened, "scenario_stats": gen.get("stats", {}), "replays": replays})
         return rc
     finally:
         shutil.rmtree(workdir, ignore_errors=True)
